@@ -152,6 +152,12 @@ def lake_build(targets, timeout=3000):
     return p.returncode == 0, (p.stdout + p.stderr), time.time() - t0
 
 
+def lake_uptodate(target):
+    """is the target built from exactly the current sources (nothing would be rebuilt)?"""
+    p = run(["lake", "build", "--no-build", target], cwd=LEAN, timeout=600)
+    return p.returncode == 0
+
+
 def driver_path():
     return os.path.join(LEAN, ".lake", "build", "bin", "aldriver")
 
